@@ -776,9 +776,22 @@ namespace bloch::compiler {
 
         std::unique_ptr<Expression> expr = parseExpression();
         if (match(TokenType::Question)) {
-            std::unique_ptr<Statement> thenBranch = parseStatement();
+            // 'qubit a, b;' yields further declarations next to the first one: they belong to the
+            // branch, not to the statements after the conditional
+            auto branch = [this]() {
+                std::unique_ptr<Statement> first = parseStatement();
+                if (m_extraStatements.empty())
+                    return first;
+                std::unique_ptr<BlockStatement> group = std::make_unique<BlockStatement>();
+                group->line = first->line;
+                group->column = first->column;
+                group->statements.push_back(std::move(first));
+                flushExtraStatements(group->statements);
+                return std::unique_ptr<Statement>(std::move(group));
+            };
+            std::unique_ptr<Statement> thenBranch = branch();
             (void)expect(TokenType::Colon, "Expected ':' after true branch");
-            std::unique_ptr<Statement> elseBranch = parseStatement();
+            std::unique_ptr<Statement> elseBranch = branch();
             std::unique_ptr<TernaryStatement> stmt = std::make_unique<TernaryStatement>();
             stmt->condition = std::move(expr);
             stmt->thenBranch = std::move(thenBranch);
